@@ -30,7 +30,8 @@ WALL = {"quick": 1200, "thorough": 10800}
 MAX_TIMEOUTS = {"quick": 1, "thorough": 20}
 REQUIRED = {"residue_classes": 600, "isomorphism_pairs_checked": 500, "same_name_different_content": 60,
             "virtual_sites_checked": 300, "vs_kinds": 7, "optimiser_successes_rechecked": 300, "impropers_rechecked": 60,
-            "user_templates": 40, "user_volumes": 60, "equivariance_checks": 500, "size_independence_checks": 25}
+            "user_templates": 40, "user_volumes": 60, "equivariance_checks": 500, "size_independence_checks": 25,
+            "optimiser_failures_seen": 30, "same_names_other_connectivity": 10}
 CAP = {"opt": []}
 _done = False
 
@@ -114,8 +115,9 @@ VS_KINDS = [("virtual_sites2", "1", 2, lambda r: ["%.3f" % r.uniform(0.1, 0.9)])
 
 
 def gen_residue(rng, resname, variant=0):
-    kind = rng.choice(["chain", "ring", "branch", "improper", "vs", "vs", "single"])
+    kind = rng.choice(["chain", "ring", "branch", "improper", "vs", "vs", "single", "frustrated"])
     atoms, bonds, angles, imps, vs = [], [], [], [], []
+    cons = []
     # atom names are specific to the residue definition: residues with the same atom names and bonds are by
     # definition the same residue for polyply, whatever their other interactions are
     pre = resname[-1] if variant == 0 else resname[-1].lower()
@@ -134,6 +136,13 @@ def gen_residue(rng, resname, variant=0):
         atoms = [pre + str(i) for i in range(n)]
         for i in range(n):
             bonds.append((i, (i + 1) % n, 0.3))
+    elif kind == "frustrated":
+        # distance targets that cannot all be met (0.25 + 0.25 < 0.70): the optimiser must not report success
+        atoms = [pre + str(i) for i in range(3)]
+        if rng.random() < 0.5:
+            cons = [(0, 1, 0.25), (1, 2, 0.25), (0, 2, round(rng.uniform(0.62, 0.75), 3))]
+        else:
+            bonds = [(0, 1, 0.25), (1, 2, 0.25), (0, 2, round(rng.uniform(0.62, 0.75), 3))]
     elif kind == "improper":
         atoms = [pre + str(i) for i in range(4)]
         bonds = [(0, 1, 0.3), (0, 2, 0.3), (0, 3, 0.3), (1, 2, 0.45), (2, 3, 0.45)]
@@ -152,7 +161,7 @@ def gen_residue(rng, resname, variant=0):
             bonds.append((0, 3, round(rng.uniform(0.3, 0.45), 3)))
         defs = list(range(ndef))
         vs.append((sec, f, nreal, defs, pf(rng)))
-    return {"name": resname, "kind": kind, "atoms": atoms, "bonds": bonds, "angles": angles, "imps": imps, "vs": vs}
+    return {"name": resname, "kind": kind, "atoms": atoms, "bonds": bonds, "angles": angles, "imps": imps, "vs": vs, "cons": cons}
 
 
 def render(sysd):
@@ -161,7 +170,7 @@ def render(sysd):
         L += ["[ moleculetype ]", "%s 1" % mt["name"], "[ atoms ]"]
         k = 1
         first = []
-        bonds, angles, imps, vss = [], [], [], {}
+        bonds, angles, imps, vss, cons = [], [], [], {}, []
         for ri, r in enumerate(mt["res"]):
             first.append(k)
             for j, a in enumerate(r["atoms"]):
@@ -169,6 +178,8 @@ def render(sysd):
                                                       "0.0" if a == "VS" else "36.0"))
             for i, j, b0 in r["bonds"]:
                 bonds.append("%d %d 1 %.3f 5000" % (k + i, k + j, b0))
+            for i, j, b0 in r.get("cons", []):
+                cons.append("%d %d 1 %.3f" % (k + i, k + j, b0))
             for i, j, l, th in r["angles"]:
                 angles.append("%d %d %d 1 %d 100" % (k + i, k + j, k + l, th))
             for i, j, l, m, ref in r["imps"]:
@@ -184,6 +195,8 @@ def render(sysd):
             bonds.append("%d %d 1 0.40 1000" % (first[a], first[a + 1]))
         if bonds:
             L += ["[ bonds ]"] + bonds
+        if cons:
+            L += ["[ constraints ]"] + cons
         if angles:
             L += ["[ angles ]"] + angles
         if imps:
@@ -199,7 +212,7 @@ def label_graph(r):
     g = nx.Graph()
     for i, a in enumerate(r["atoms"]):
         g.add_node(i, atomname=a)
-    for i, j, _ in r["bonds"]:
+    for i, j, _ in r["bonds"] + r.get("cons", []):
         g.add_edge(i, j)
     return g
 
@@ -231,6 +244,16 @@ def run_case(cid, rng, workdir):
         pool[(nm, 0)] = gen_residue(rng, nm, 0)
         if rng.random() < 0.35:
             pool[(nm, 1)] = gen_residue(rng, nm, 1)
+        elif rng.random() < 0.2 and pool[(nm, 0)]["kind"] in ("chain", "branch") and len(pool[(nm, 0)]["atoms"]) >= 3:
+            # same residue name, same atom names, other connectivity (e.g. EC1-O1-EC2 versus O1-EC1-EC2)
+            base = pool[(nm, 0)]
+            perm = list(range(len(base["atoms"])))
+            rng.shuffle(perm)
+            v = dict(base, bonds=[(perm[i], perm[j], b0) for i, j, b0 in base["bonds"]], angles=[], kind="rewired")
+            import networkx as _nx
+            if not _nx.is_isomorphic(label_graph(base), label_graph(v), node_match=lambda a, b: a["atomname"] == b["atomname"]):
+                pool[(nm, 1)] = v
+                bump(res, "same_names_other_connectivity")
     # an alias: the same content under another residue name (must share one template)
     if rng.random() < 0.3:
         src = rng.choice(sorted(pool))
@@ -244,7 +267,12 @@ def run_case(cid, rng, workdir):
         for (nm, v) in pool:
             pick.setdefault(nm, []).append(v)
         variant = {nm: rng.choice(vs) for nm, vs in pick.items()}
-        res_list = [pool[(nm, variant[nm])] for nm in [rng.choice(sorted(variant)) for _ in range(rng.randint(1, 5))]]
+        res_list = []
+        for nm in [rng.choice(sorted(variant)) for _ in range(rng.randint(1, 5))]:
+            v = variant[nm]
+            if (nm, 1) in pool and pool[(nm, 1)]["kind"] == "rewired":
+                v = rng.choice([0, 1])          # both connectivities may occur in one molecule
+            res_list.append(pool[(nm, v)])
         moltypes.append({"name": "M%d" % mi, "res": res_list})
     sysd = {"moltypes": moltypes, "counts": [rng.randint(1, 2) for _ in moltypes]}
     text = render(sysd)
@@ -383,6 +411,8 @@ def run_case(cid, rng, workdir):
                 X = [coords[a] for a in it.atoms]
                 if sec in ("bonds", "constraints"):
                     dev = abs(np.linalg.norm(X[0] - X[1]) - float(it.parameters[1]))
+                    if block_is_frustrated(block):
+                        bump(res, "frustrated_successes_rechecked")
                     if dev > 0.05 + 1e-9:
                         violation(res, "reported-optimised-but-%s-off" % sec[:-1], "%s %s: length off by %.3f nm" % (sec, list(it.atoms), dev), w)
                 elif sec == "angles":
@@ -409,6 +439,10 @@ def run_case(cid, rng, workdir):
                     violation(res, "size-shared-through-residue-name", "the two different residues named %s (%s and %s) have "
                               "exactly the same size %r" % (nm, r1["atoms"], r2["atoms"], top.volumes[k1]), w)
     return res
+
+
+def block_is_frustrated(block):
+    return len(block.nodes) == 3 and (len(block.interactions.get("constraints", [])) == 3 or len(block.interactions.get("bonds", [])) == 3)
 
 
 def run_vs_direct(cid, rng, res):
